@@ -27,7 +27,8 @@ def solve_nurikabe(height, width, problem, unknown_low=None):
     division = solver.int_array((height, width), 0, len(clues))
 
     roots = [None] + list(map(lambda x: (x[0], x[1]), clues))
-    graph.division_connected(solver, division, len(clues) + 1, roots=roots)
+    # every island is non-empty because it contains its clue cell (a root); the sea may be empty
+    graph.division_connected(solver, division, len(clues) + 1, roots=roots, allow_empty_group=True)
     is_white = solver.bool_array((height, width))
     solver.ensure(is_white == (division != 0))
     solver.add_answer_key(is_white)
